@@ -296,6 +296,8 @@ type c18Backend interface {
 	get(id string) (*detection.Signature, error)
 	saveLoad() error
 	refusedLoad(path string) error // load / migrate a file that must be refused
+	save() (bool, error)           // persist without reloading (false = not applicable to this back end)
+	reloadSame() (bool, error)     // load the persisted file into the SAME instance, dropping unsaved changes
 	close()
 }
 
@@ -304,10 +306,10 @@ type c18Pebble struct {
 	dir string
 }
 
-func (b *c18Pebble) add(sig *detection.Signature) error           { return b.s.AddSignature(sig) }
-func (b *c18Pebble) addBatch(sigs []*detection.Signature) error   { return b.s.AddSignatures(sigs) }
-func (b *c18Pebble) get(id string) (*detection.Signature, error)  { return b.s.GetSignature(id) }
-func (b *c18Pebble) close()                                       { b.s.Close() }
+func (b *c18Pebble) add(sig *detection.Signature) error          { return b.s.AddSignature(sig) }
+func (b *c18Pebble) addBatch(sigs []*detection.Signature) error  { return b.s.AddSignatures(sigs) }
+func (b *c18Pebble) get(id string) (*detection.Signature, error) { return b.s.GetSignature(id) }
+func (b *c18Pebble) close()                                      { b.s.Close() }
 func (b *c18Pebble) saveLoad() error {
 	if err := b.s.Close(); err != nil {
 		return err
@@ -320,6 +322,8 @@ func (b *c18Pebble) saveLoad() error {
 	return nil
 }
 
+func (b *c18Pebble) save() (bool, error)       { return false, nil }
+func (b *c18Pebble) reloadSame() (bool, error) { return false, nil }
 func (b *c18Pebble) refusedLoad(path string) error {
 	_, err := b.s.MigrateFromJSON(path)
 	return err
@@ -331,6 +335,8 @@ type c18JSON struct {
 }
 
 func (b *c18JSON) refusedLoad(path string) error { return b.s.LoadDatabase(path) }
+func (b *c18JSON) save() (bool, error)           { return true, b.s.SaveDatabase(b.path) }
+func (b *c18JSON) reloadSame() (bool, error)     { return true, b.s.LoadDatabase(b.path) }
 
 func (b *c18JSON) add(sig *detection.Signature) error { return b.s.AddSignature(sig) }
 func (b *c18JSON) addBatch(sigs []*detection.Signature) error {
@@ -359,7 +365,11 @@ func (b *c18JSON) saveLoad() error {
 }
 
 func TestVerifC18AddGet(t *testing.T) {
-	r := vh.New("add-get-histories")
+	unitName := "add-get-histories"
+	if vh.Env("JSON_ONLY") != "" {
+		unitName = "json-store-histories"
+	}
+	r := vh.New(unitName)
 	defer r.Write()
 	defer func() { VerifFS = nil }()
 	scratch := vh.Env("SCRATCH")
@@ -386,7 +396,8 @@ func TestVerifC18AddGet(t *testing.T) {
 	steps = append(steps,
 		step{"Batch(A,B)", []string{"A", "B"}, "batch"}, step{"Batch(A,A)", []string{"A", "A"}, "batch"}, step{"Batch(auto,A)", []string{"", "A"}, "batch"},
 		step{"SaveLoad", nil, "saveload"},
-		step{"RefusedLoad(truncated)", nil, "badload-truncated"}, step{"RefusedLoad(malformed)", nil, "badload-malformed"})
+		step{"RefusedLoad(truncated)", nil, "badload-truncated"}, step{"RefusedLoad(malformed)", nil, "badload-malformed"},
+		step{"Save", nil, "save"}, step{"ReloadSameInstance", nil, "reload-same"})
 	// files that must be refused: a database with three OTHER signatures (X, Y, Z), cut in the
 	// middle of the second entry, and the same database with a wrongly typed field in its last entry
 	var others []detection.Signature
@@ -405,8 +416,12 @@ func TestVerifC18AddGet(t *testing.T) {
 	depth := 3
 	idx := 0
 	var rec func(seq []int)
+	backends := []string{"pebble", "json"}
+	if vh.Env("JSON_ONLY") != "" {
+		backends = []string{"json"} // the unit registered under C06 (lookups by ID on the JSON store)
+	}
 	runHistory := func(seq []int) {
-		for _, backend := range []string{"pebble", "json"} {
+		for _, backend := range backends {
 			var b c18Backend
 			if backend == "pebble" {
 				VerifFS = vfs.NewMem()
@@ -420,6 +435,9 @@ func TestVerifC18AddGet(t *testing.T) {
 				b = &c18JSON{s: jsondb.NewScanner(), path: filepath.Join(scratch, "db.json")}
 			}
 			want := map[string]detection.Signature{}
+			var saved map[string]detection.Signature // content of the persisted file (nil = never saved)
+			universe := map[string]bool{"A": true, "B": true, "X": true, "Y": true, "Z": true, "never-added": true}
+			os.Remove(filepath.Join(scratch, "db.json"))
 			var names []string
 			content := 0
 			failed := false
@@ -471,7 +489,40 @@ func TestVerifC18AddGet(t *testing.T) {
 						r.Violate(key+"/accepted", fmt.Sprintf("%s: the file was accepted without an error", st.name), rp)
 						failed = true
 					}
+					// whether entries that precede the defect are imported before the error is reported
+					// is not fixed by the statement: X, Y, Z are no longer judged as ghosts in this history
+					delete(universe, "X")
+					delete(universe, "Y")
+					delete(universe, "Z")
+				case "save":
+					if ok, err := b.save(); err != nil {
+						r.Violate(key+"/save", "SaveDatabase failed: "+err.Error(), rp)
+						failed = true
+					} else if ok {
+						saved = map[string]detection.Signature{}
+						for k, v := range want {
+							saved[k] = v
+						}
+					}
+				case "reload-same":
+					if saved != nil {
+						if ok, err := b.reloadSame(); err != nil {
+							r.Violate(key+"/reload", "LoadDatabase of the file this instance saved failed: "+err.Error(), rp)
+							failed = true
+						} else if ok {
+							want = map[string]detection.Signature{}
+							for k, v := range saved {
+								want[k] = v
+							}
+						}
+					}
 				case "saveload":
+					if backend == "json" {
+						saved = map[string]detection.Signature{}
+						for k, v := range want {
+							saved[k] = v
+						}
+					}
 					if err := b.saveLoad(); err != nil {
 						r.Violate(key+"/saveload", "save/load (or close/reopen) failed: "+err.Error(), rp)
 						failed = true
@@ -498,6 +549,19 @@ func TestVerifC18AddGet(t *testing.T) {
 						failed = true
 					} else if sigCanon(*got) != sigCanon(want[id]) {
 						r.Violate(key+"/content-"+label, fmt.Sprintf("GetSignature(%s) content differs after %v:\n got  %s\n want %s", id, names, sigCanon(*got), sigCanon(want[id])), rp)
+						failed = true
+					}
+				}
+				// nothing that is not part of the current set may be found
+				for id := range want {
+					universe[id] = true
+				}
+				for id := range universe {
+					if _, in := want[id]; in {
+						continue
+					}
+					if got, err := b.get(id); err == nil && got != nil {
+						r.Violate(key+"/ghost-"+strings.TrimPrefix(id, "SFW-AUTO-"), fmt.Sprintf("GetSignature(%s) succeeds after %v although %s is not part of the store's current content (returned %s)", id, names, id, sigCanon(*got)), rp)
 						failed = true
 					}
 				}
@@ -531,6 +595,33 @@ func TestVerifC18AddGet(t *testing.T) {
 		}
 	}
 	rec(nil)
+	// the JSON store keeps an ID index beside its slice: longer histories over the operations that
+	// rebuild or extend that index (save, reload into the same instance, fresh load), JSON only
+	backends = []string{"json"}
+	var sub []int
+	for i, st := range steps {
+		switch st.name {
+		case "Add(A)", "Add(B)", "Add(auto)", "Batch(A,B)", "Save", "ReloadSameInstance", "SaveLoad":
+			sub = append(sub, i)
+		}
+	}
+	var rec2 func(seq []int)
+	rec2 = func(seq []int) {
+		if len(seq) > depth { // histories up to depth 3 were covered above
+			idx++
+			if vh.Mine(idx) {
+				runHistory(seq)
+			}
+		}
+		if len(seq) == 5 {
+			return
+		}
+		for _, i := range sub {
+			rec2(append(seq, i))
+		}
+	}
+	rec2(nil)
+	r.Max("max_json_history_len", 5)
 }
 
 func idn(id string) string {
